@@ -16,6 +16,7 @@
 #include "log.h"
 #include "thread_info.h"
 #include "tree_instance.h"
+#include "verif_hook.h"
 
 #include "glog/logging.h"
 
@@ -110,6 +111,7 @@ public:
     }
 
     [[nodiscard]] n_keys_body_type get_n_keys() {
+        YAKUSHIMA_VERIF_YIELD(Y_LOAD | Y_CAT_NODE, &n_keys_);
         return n_keys_.load(std::memory_order_acquire);
     }
 
@@ -137,6 +139,7 @@ public:
                     /**
                      * The key_slice must be left direction of the index.
                      */
+                    YAKUSHIMA_VERIF_YIELD(Y_LOAD | Y_CAT_NODE, &children);
                     ret_child = children.at(i);
                     break;
                 }
@@ -145,6 +148,7 @@ public:
                 /**
                  * The key_slice must be right direction of the index.
                  */
+                YAKUSHIMA_VERIF_YIELD(Y_LOAD | Y_CAT_NODE, &children);
                 ret_child = children.at(n_key);
                 if (ret_child == nullptr) {
                     // SMOs have found, so retry from a root node
@@ -210,6 +214,7 @@ public:
                     set_key(i, key_slice, key_length);
                     shift_right_children(i + 1);
                     set_child_at(i + 1, child);
+                    YAKUSHIMA_VERIF_YIELD(Y_STORE | Y_CAT_NODE, &n_keys_);
                     n_keys_increment();
                     return;
                 }
@@ -218,6 +223,7 @@ public:
                 set_key(i, key_slice, key_length);
                 shift_right_children(i + 1);
                 set_child_at(i + 1, child);
+                YAKUSHIMA_VERIF_YIELD(Y_STORE | Y_CAT_NODE, &n_keys_);
                 n_keys_increment();
                 return;
             }
@@ -225,6 +231,7 @@ public:
         // insert to rightmost points
         set_key(n_key, key_slice, key_length);
         set_child_at(n_key + 1, child);
+        YAKUSHIMA_VERIF_YIELD(Y_STORE | Y_CAT_NODE, &n_keys_);
         n_keys_increment();
     }
 
@@ -246,6 +253,7 @@ public:
     }
 
     void set_n_keys(const n_keys_body_type new_n_key) {
+        YAKUSHIMA_VERIF_YIELD(Y_STORE | Y_CAT_NODE, &n_keys_);
         n_keys_.store(new_n_key, std::memory_order_release);
     }
 
